@@ -264,14 +264,16 @@ def crossing_noise(lat_a, lon_a, lat_b, lon_b):
     floating-point coordinates at all, as a fraction of the segment: one ulp of the
     coordinate across the line moves the crossing by ulp / |delta| of the segment.  Only
     segments nearly parallel to a grid line (|delta| of a few hundred ulps) get a
-    noticeable value; capped at 0.45."""
+    noticeable value; at 1 (longitudes or latitudes of the two ends a few ulps apart, on
+    either side of the line) the place of the crossing - and so the split of the segment
+    between the two cells - is not determined at all."""
     eps = 0.0
     dlat, dlon = abs(lat_b - lat_a), abs(lon_b - lon_a)
     if dlat > 0:
         eps += 8 * float(np.spacing(max(abs(lat_a), abs(lat_b)))) / dlat
     if dlon > 0:
         eps += 8 * float(np.spacing(max(abs(lon_a), abs(lon_b)))) / dlon
-    return min(0.45, eps)
+    return min(1.0, eps)
 
 
 # ---------------------------------------------------------------------------
